@@ -1,12 +1,38 @@
 """C19 - Division conserves molecules and volume; lineage records are consistent."""
 import os
-CONTRACT_MODULES = ['splitters', 'random_']
+CONTRACT_MODULES = ['splitters', 'random_', 'lineage_sim', 'simulator_interfaces', 'simulator_ssa', 'types_rules']
 PRELOAD = ['lineage']
 SPEC_MODULES = ['functions']
 LEVEL = 'proof'
-ASSUMPTIONS = []
+ASSUMPTIONS = [
+    'the random stream U is i.i.d. uniform (C08); "d[s] == bcount(k, round(x[s]), p) over pairwise disjoint stream segments" is read as d[s] ~ Binomial(round(x[s]), p) independently per species (cited)',
+    'partition tables of a splitter are well formed: indices in range, the perfect and the binomial list duplicate-free and disjoint (precondition of partition; established by the constructors for option lists without repeated names - constructor contracts are shape-class only)',
+    'partition noise: GeneralVolumeSplitter noise < 0.5 (as documented); LineageVolumeSplitter noise < 1 (noise == 1 with a draw of exactly 1.0 gives a zero-volume daughter, probability 2^-53); custom partition functions are outside the quantifier of the statement and excluded by precondition',
+    'SimulateSingleCell: mode 1 (full trajectory), at least two sorted time points, cell state carries a state vector of the right length and positive volume; the interface virtual methods (lineage propensities >= 0, rule indices in range, volume rules/events) are abstract contracts (uninterpreted functions of their arguments)',
+    'SimulateCellLineage: the work-list loop itself is not under contract; simulate_daughter_cells (one division) is, and the list-alignment invariant it preserves is stated as its postcondition',
+    'Schnitz / Lineage container accessors are not under contract (plain field getters)',
+]
 TRUSTED = []
-EXPLANATION = ''
-LEVEL_TEXT = 'Deductive proof.'
+EXPLANATION = ('Splitters: loop invariants over symbolic partition tables prove conservation per mode, the volume split, and the binomial law as a count over explicit disjoint segments of the random '
+               'stream, for all mother states. Single-cell lineage loop: invariants (positive volume, recorded rows positive and due) and at-break clauses (division / death codes identify the '
+               'rule or the sampled event), preconditions of the samplers at their call sites (no sampling with total propensity zero), result rows exactly the recorded ones. '
+               'Dispatch: LineageCSimInterface.partition uses the splitter attached to the rule / event named by the division code. simulate_daughter_cells: both daughters simulated from the '
+               'partition, parent/daughter links mutual, work lists stay aligned.')
+LEVEL_TEXT = 'Deductive proof for all mother states / partition tables (splitters) and all interface behaviours (single-cell loop); lineage work-list loop not covered.'
 LEVEL_NOTE = 'See assumptions.'
 _HERE = os.path.dirname(os.path.dirname(os.path.abspath(__file__)))
+
+
+def _sweep(seed, rec):
+    spec = dict(seed=seed)
+    if rec is not None:
+        f = rec['fuc']
+        spec['part'] = 'splitters' if 'Splitter' in f else ('dispatch' if 'partition' in f or 'at-break' in (rec.get('label') or '') else
+                                                            ('lineage' if 'simulate_daughter_cells' in f else None))
+        if spec['part'] is None:
+            del spec['part']
+    src = open(os.path.join(_HERE, 'native', 'C19_sweep.py')).read()
+    return src.replace("json.loads(sys.argv[1]) if len(sys.argv) > 1 else {}", repr(spec))
+
+
+NATIVE_SWEEPS = {'*': _sweep}
